@@ -4,6 +4,6 @@
 (assert
  (not (<= 1 attempts!1)))
 (assert
- (let (($x34 (< attempts!1 1)))
-(not $x34)))
+ (let (($x36 (< attempts!1 1)))
+(not $x36)))
 (check-sat)
